@@ -8,6 +8,14 @@ neither happens for n >= 2), `for i in range(a, b[, -1])` iterates over `pyRange
 `Hdc/Props/C01gen.lean` proves that this program equals the hand model `Hdc.ws2d` (hence satisfies the normal equations).
 Supported subset: assignments to names and to `name[int-expr]`, `range` loops, `+ - * /`, unary minus, integer literals,
 `zeros(n)`, `.copy()`, `.shape[0]`, `return name`.  Anything else -> exit 1 (broken obligation of C01).
+
+Instrumentation mode (`TS`, always run after the ordinary translation; output `lean/Hdc/Gen/SafeWs2d.lean`, namespace
+`Hdc.Gen.Safe`): the same program, statement by statement, with one extra mutable flag `bad : Bool` (declared first, initially
+`false`).  Before every statement `bad := (bad || c1 || c2 ...)` where the `ci` are, in evaluation order (right-hand side, then
+the store target; duplicates within one statement dropped),
+  * `oob a.size i`      for every subscript `a[i]` (read or store) of the statement   [Hdc/PySafe.lean: not (-len a <= i < len a)]
+  * `eqv e2 (nat 0)`    for every division `e1 / e2` (all divisions of ws2d are scalar divisions)
+and `return z` becomes `return (z, bad)`.  The ordinary output is not affected by this mode (byte-identical).
 """
 import ast
 import hashlib
@@ -18,6 +26,7 @@ from pathlib import Path
 REPO = Path(os.environ.get("HDC_REPO", "/repo"))
 SRC = REPO / "hdc" / "algo" / "ops" / "ws2d.py"
 OUT = Path(__file__).resolve().parent.parent / "lean" / "Hdc" / "Gen" / "Ws2d.lean"
+SAFE_OUT = OUT.with_name("SafeWs2d.lean")
 
 
 class Unsupported(Exception):
@@ -147,6 +156,80 @@ class T:
         return "\n".join(self.lines)
 
 
+class TS(T):
+    """instrumentation mode: the same statements plus the flag `bad` (see the module docstring)"""
+
+    def checks(self, e, out):
+        """conditions under which evaluating `e` raises (IndexError / ZeroDivisionError), in evaluation order"""
+        if isinstance(e, ast.Subscript):
+            if isinstance(e.value, ast.Attribute) and e.value.attr == "shape":        # y.shape[0]: a tuple, no array access
+                return
+            if not (isinstance(e.value, ast.Name) and e.value.id in self.arrays):
+                raise Unsupported("safe: subscript of a non-array")
+            if isinstance(e.slice, ast.Slice) or not self.is_int(e.slice):
+                raise Unsupported("safe: subscript form")
+            self.checks(e.slice, out)
+            out.append(f"oob {e.value.id}.size {self.iexpr(e.slice)}")
+            return
+        if isinstance(e, ast.BinOp):
+            self.checks(e.left, out)
+            self.checks(e.right, out)
+            if isinstance(e.op, ast.Div):
+                out.append(f"eqv {self.fexpr(e.right)} (nat 0)")
+            elif not isinstance(e.op, (ast.Add, ast.Sub, ast.Mult)):
+                raise Unsupported("safe: operator")
+            return
+        if isinstance(e, ast.UnaryOp):
+            return self.checks(e.operand, out)
+        if isinstance(e, (ast.Name, ast.Constant)):
+            return
+        if isinstance(e, ast.Call):
+            # zeros(n) / a.copy() / range(...) : no subscript, no division in the callee; arguments are checked
+            for a in e.args:
+                self.checks(a, out)
+            if isinstance(e.func, ast.Attribute):
+                self.checks(e.func.value, out)
+            return
+        if isinstance(e, ast.Attribute):
+            return self.checks(e.value, out)
+        raise Unsupported("safe: " + type(e).__name__)
+
+    def stmt(self, s, ind):
+        pad = "  " * ind
+        cs = []
+        if isinstance(s, ast.Assign) and len(s.targets) == 1:
+            self.checks(s.value, cs)
+            self.checks(s.targets[0], cs)
+        elif isinstance(s, ast.For):
+            self.checks(s.iter, cs)
+        elif isinstance(s, ast.Return) and s.value is not None:
+            self.checks(s.value, cs)
+        cs = list(dict.fromkeys(cs))
+        if cs:
+            self.lines.append(f"{pad}bad := (bad || " + " || ".join(f"({c})" for c in cs) + ")")
+        if isinstance(s, ast.Return) and isinstance(s.value, ast.Name) and s.value.id in self.arrays:
+            self.lines.append(f"{pad}return ({s.value.id}, bad)")
+            return
+        return super().stmt(s, ind)
+
+    def run(self):
+        self.lines.append("  let mut bad : Bool := false")       # declared first: first component of every loop state
+        return super().run()
+
+
+SAFE_HEADER = """import Hdc.Gen.Ws2d
+import Hdc.PySafe
+/-
+GENERATED by harness/translate_ws2d.py (instrumentation mode) from hdc/algo/ops/ws2d.py (sha256 {sha}).  Do not edit.
+The statements of `Hdc.Gen.Ws2d.ws2d` plus the flag `bad`: set when a subscript is outside `[-len, len)` or a divisor is zero.
+-/
+namespace Hdc.Gen.Safe
+open Hdc Hdc.Gen.Ws2d
+variable {{α : Type}} [Add α] [Sub α] [Mul α] [Div α] [Neg α] [NatCast α] [LT α] [DecidableLT α]
+
+def ws2d ({p0} : Array α) ({p1} : α) ({p2} : Array α) : Array α × Bool := Id.run do
+"""
+
 HEADER = """import Hdc.Num
 /-
 GENERATED by harness/translate_ws2d.py from hdc/algo/ops/ws2d.py (sha256 {sha}).  Do not edit.
@@ -174,6 +257,15 @@ def ws2d ({p0} : Array α) ({p1} : α) ({p2} : Array α) : Array α := Id.run do
 """
 
 
+def write_if_changed(path, text):
+    path.parent.mkdir(parents=True, exist_ok=True)
+    if not path.exists() or path.read_text() != text:
+        tmp = path.with_suffix(".tmp")
+        tmp.write_text(text)
+        tmp.replace(path)
+        print(f"translate_ws2d: wrote {path}")
+
+
 def main():
     src = SRC.read_text()
     try:
@@ -184,13 +276,18 @@ def main():
     except (Unsupported, StopIteration, KeyError, IndexError, AttributeError) as e:
         print(f"translate_ws2d: unsupported construct: {e!r}", file=sys.stderr)
         return 1
-    text = HEADER.format(sha=hashlib.sha256(src.encode()).hexdigest()[:16], p0=t.params[0], p1=t.params[1], p2=t.params[2]) + body + "\n\nend Hdc.Gen.Ws2d\n"
-    OUT.parent.mkdir(parents=True, exist_ok=True)
-    if not OUT.exists() or OUT.read_text() != text:
-        tmp = OUT.with_suffix(".tmp")
-        tmp.write_text(text)
-        tmp.replace(OUT)
-        print(f"translate_ws2d: wrote {OUT}")
+    sha = hashlib.sha256(src.encode()).hexdigest()[:16]
+    text = HEADER.format(sha=sha, p0=t.params[0], p1=t.params[1], p2=t.params[2]) + body + "\n\nend Hdc.Gen.Ws2d\n"
+    write_if_changed(OUT, text)
+    # instrumentation mode
+    try:
+        ts = TS(fn)
+        sbody = ts.run()
+    except (Unsupported, KeyError, IndexError, AttributeError) as e:
+        print(f"translate_ws2d: FAILED Hdc.Gen.SafeWs2d: unsupported construct: {e!r}", file=sys.stderr)
+        return 1
+    stext = SAFE_HEADER.format(sha=sha, p0=ts.params[0], p1=ts.params[1], p2=ts.params[2]) + sbody + "\n\nend Hdc.Gen.Safe\n"
+    write_if_changed(SAFE_OUT, stext)
     return 0
 
 
